@@ -109,14 +109,19 @@ def judge(pre, post, mode, fmts, res, edits_state):
         s = dict(sig); s.update(extra)
         v.append(Viol(PROP, kind, s, detail))
 
-    if res.exc is not None or res.exit not in (0, 11):
+    if mode == "was-folder" and res.exc is None and res.exit == 10:
+        pass   # the folder recorded under this name (and what was in it) is gone: 'missing' is the correct answer of every run
+    elif res.exc is not None or res.exit not in (0, 11):
         where = res.tb[-1][1] if res.tb else None
         V("abort", f"create {fmts} on {'altered' if altered else 'unaltered'} tree: exit {res.exit} exc {res.exc}",
           exc=(res.exc or "").split(":")[0], where=where, altered=altered)
         return v
-    if not altered and res.exit != 0:
+    if mode == "was-folder":
+        if res.exit == 0:
+            V("exit-0-with-missing-folder", f"create {fmts}: exit 0 although the recorded folder is gone")
+    elif not altered and res.exit != 0:
         V("exit-nonzero-unaltered", f"create {fmts}: exit {res.exit} on an unaltered tree\n{res.err[-300:]}")
-    if altered and res.exit != 11:
+    if altered and res.exit != 11 and mode != "was-folder":
         V("exit-not-11-altered", f"create {fmts}: exit {res.exit} although the tracked file differs from its first digest")
     if len(new) != 1:
         V("generation-count", f"{len(new)} new manifests in history '{hroot}'")
@@ -239,6 +244,7 @@ def main(tier, seed):
     # a long history of one format (generation numbers pass 9 -> 10): the first digest stays the reference whatever was recorded since
     plan.append(("folder", ["md5"], 12, 3))
     plan.append(("late", ["md5"], 12, 4))
+    plan.append(("was-folder", ["md5", "xxh64"], 3 if tier == "quick" else 4, 2))
     for mode, fmts, max_gen, max_edits in plan:
         fsets = subsets(fmts)
         meta = {"mode": mode, "fsets": fsets, "max_gen": max_gen, "max_edits": max_edits, "gens": 0, "edits": 0}
@@ -246,6 +252,15 @@ def main(tier, seed):
         if mode == "twins":   # three sibling histories; the tracked file lives in the middle one
             init = engine.scenarios(eng, lambda: {"t": ops.build(eng.local_ctx(), dict(TWINS, **{"d/a.txt": A0}),
                                                                  [ops.create(x, ["md5"]) for x in ("c", "d", "e")], expect=[0, 0, 0])})["t"]
+            if init is None:
+                continue
+            meta["gens"] = 1
+            max_gen += 1
+            meta["max_gen"] = max_gen
+        if mode == "was-folder":   # generation 1 recorded a FOLDER under the tracked name; a file has taken its place since
+            init = engine.scenarios(eng, lambda: {"t": ops.build(eng.local_ctx(), {"a.txt": DIR, "a.txt/inner.bin": b"inside", "b.txt": b"bystander"},
+                                                                 [ops.create("", ["md5"]), ["retype", "a.txt"], ["write", "a.txt", A0]],
+                                                                 expect=[0])})["t"]
             if init is None:
                 continue
             meta["gens"] = 1
